@@ -244,11 +244,8 @@ func (p *Program) structSort(named *types.Named, st *types.Struct) Sort {
 	var name Sort
 	if named != nil {
 		name = Sort("S$" + typeName(named))
-		if named.Obj().Pkg() != nil && !inModule(named.Obj().Pkg()) {
-			// external struct types are opaque
-			name = Sort("X$" + typeName(named))
-			p.U.OpaqueSrt[name] = true
-			return name
+		if named.TypeArgs().Len() > 0 {
+			name = Sort("S$" + typeName(named) + "$" + shortHash(named.String()))
 		}
 	} else {
 		name = Sort("S$anon$" + shortHash(st.String()))
